@@ -188,7 +188,9 @@ func (l *List) M__bool__() (Object, error) {
 }
 
 func (l *List) M__iter__() (Object, error) {
-	return NewIterator(Tuple(l.Items)), nil
+	// iterate over the live list (by index), not over a snapshot of its
+	// backing array: items appended or removed during the iteration are seen
+	return NewIterator(l), nil
 }
 
 func (l *List) M__getitem__(key Object) (Object, error) {
